@@ -391,9 +391,15 @@ class CallServer(object):
 
 
 def _enc_outcome(o):
+    """(status, value by value, dtype-kind signature).  The third element is compared only between
+    executions that received the same representation of the arguments."""
     if o[0] == 'ok':
-        return ('ok', worlds.enc(o[1]))
+        return ('ok', worlds.enc(o[1]), worlds.kind_of(o[1]))
     return o
+
+
+def _by_value(e):
+    return e[:2] if e[0] == 'ok' else e
 
 
 def run_ref_client(plan, c):
@@ -537,11 +543,12 @@ def execute(plan, stats=None, want_events=True):
             _SERVER.close()
         _SERVER = None
     encs, findings, events, info = run_sim(plan, st)
+    type_only_plan = _type_only(plan)
     seen = set(f['key'] for f in findings)
     findings.extend(f for f in ref_findings if f['key'] not in seen)
     for c in sorted(encs):
         for k in sorted(encs[c]):
-            if k in ref[c] and encs[c][k] != ref[c][k]:
+            if k in ref[c] and (encs[c][k] != ref[c][k] if not type_only_plan else _by_value(encs[c][k]) != _by_value(ref[c][k])):
                 fn = plan['clients'][c]['steps'][k]['fn']
                 findings.append({'oracle': 'P2', 'key': 'P2:%s' % fn, 'where': [None, c, k], 'fn': fn,
                                  'detail': {'isolated_world': _short(ref[c][k]), 'simulated_world': _short(encs[c][k])}})
